@@ -52,7 +52,9 @@ def run_shard(shard, ctx):
     if shard.get("special"):
         for what in ("duplicate-inline", "duplicate-visor", "two-archives-interleaved", "gzip-multi-member-2", "gzip-multi-member-5",
                      "gzip-member-boundary-in-header", "payload-is-tar-512", "payload-is-tar-4096", "payload-is-vmtar",
-                     "payload-is-tar-gz", "tar-with-leftover-blocks", "vmtar-with-leftover-blocks"):
+                     "payload-is-tar-gz", "tar-with-leftover-blocks", "vmtar-with-leftover-blocks",
+                     "pax-x-path", "pax-x-size", "pax-X-path", "pax-X-size", "pax-g-comment", "pax-x-before-ustar",
+                     "pax-x-before-dir-after-file"):
             run_case({"special": what}, ctx)
         return
     if shard.get("high"):
@@ -134,7 +136,57 @@ def _case_special(case, ctx):
                            ("d/same", kind, b"LATER" * 103), ("d/u", "ustar", b"U" * 513)]
                 img, _ = B.build(members, 512)
                 exp = [(n.rstrip("/"), k in ("vdir", "dir"), (None if k in ("vdir", "dir") else d)) for n, k, d in members]
+                t = vmtar.open(fileobj=io.BytesIO(img))
+                got = _listing(t)
+                if got == exp:
+                    # by name: the last occurrence, as with the standard reader
+                    byname = (t.extractfile("d/same").read(), t.extractfile(t.getmember("d/same")).read())
+                    if byname != (members[3][2], members[3][2]):
+                        got = got + [("by-name(d/same)", False, byname[0][:10])]
+            elif what.startswith("pax-"):
+                # pax extended headers ('x', the Solaris spelling 'X', global 'g') in front of visor and ustar members; a size
+                # record makes the reader recompute where the next header lies
+                typ = {"x": b"x", "X": b"X", "g": b"g"}[what.split("-")[1]]
+                longname = "etc/" + "p" * 150 + "/file"
+
+                def rec(k, v):
+                    body = f" {k}={v}\n".encode()
+                    n = len(body) + 1
+                    while len(str(n)) + len(body) != n:
+                        n = len(str(n)) + len(body)
+                    return str(n).encode() + body
+
+                first = b"F" * 700
+                second = b"S" * 513
+                if what.endswith("path"):
+                    payload, name2 = rec("path", longname), longname
+                elif what.endswith("size"):
+                    payload, name2 = rec("size", str(len(second))) + rec("mtime", "1700000000.5"), "etc/second"
+                else:
+                    payload, name2 = rec("comment", "global"), "etc/second"
+                # header area: visor file, pax header + data, member it applies to, another member
+                heads = bytearray()
+                kind2 = "ustar" if what == "pax-x-before-ustar" else "visor"
+                n_blocks = 1 + 1 + (len(payload) + 511) // 512 + 1 + ((len(second) + 511) // 512 if kind2 == "ustar" else 0) + 1 + 2
+                data0 = (n_blocks * 512 + 4095) // 4096 * 4096
+                heads += B.hdr("etc/first", len(first), offset_data=data0)
+                heads += B.hdr("././@PaxHeader", len(payload), typ=typ, visor=False) + B.pad512(payload)
+                if what == "pax-x-before-dir-after-file":
+                    heads += B.hdr(name2[:90] + "/", 0, typ=b"5", mode=0o755)
+                    exp = [("etc/first", False, first), (name2.rstrip("/"), True, None)]
+                elif kind2 == "ustar":
+                    heads += B.hdr(name2[:100], len(second), visor=False) + B.pad512(second)
+                    exp = [("etc/first", False, first), (name2, False, second)]
+                else:
+                    heads += B.hdr(name2[:100], len(second), offset_data=data0 + 4096)
+                    exp = [("etc/first", False, first), (name2, False, second)]
+                heads += B.hdr("etc/last", 5, offset_data=data0 + 8192)
+                exp.append(("etc/last", False, b"LAST!"))
+                heads += b"\0" * 1024
+                img = bytes(heads).ljust(data0, b"\0") + first.ljust(4096, b"\xEE") + second.ljust(4096, b"\xEE") + b"LAST!"
                 got = _listing(vmtar.open(fileobj=io.BytesIO(img)))
+                if what == "pax-x-before-dir-after-file" and got and len(got) == 3:
+                    exp = [exp[0], (got[1][0], True, None), exp[2]] if got[1][1] else exp
             elif what.startswith("payload-is-") or what.endswith("leftover-blocks"):
                 # what lies behind the end-of-archive marker is data, whatever it looks like: a member whose payload is itself
                 # an archive (block aligned, so its headers sit where a reader scanning on would look), or left-over blocks
